@@ -4,7 +4,8 @@ Tie H: random histories over {construct from None / atoms / list of structures (
 ensemble / molecule / conformer / plain structure, with and without explicit coords / atomic_charges / weights,
 io round trip (msgpack + molli.chem.io v2), append, extend (list, ensemble), scale, invert, translate (1-d, 2-d),
 rotate (one matrix, one per conformer), whole-array setters, writes through a conformer (coords / charges,
-whole row and element-wise, scale / translate / transform of the view), reads through a conformer, iter()/next()
+whole row and element-wise, scale / translate / transform of the view), reads through a conformer, a conformer through the
+molecule codec of molli.chem.io (as a MoleculeLibrary stores it), iter()/next()
 on any number of interleaved iterators, nested loops, dumps inside a loop, slices, dumps_xyz / dumps_mol2 of a
 conformer and of the ensemble} are driven through the REAL ConformerEnsemble / Conformer classes.  Numbers are
 integer-valued doubles (or NaN), all distinct when handed in, so every transform is exact and a row read from the
@@ -146,6 +147,8 @@ def op_term(op):
         return f"(ConfTransform {nat(op[1])} {zt(op[2])} {mat_t(op[4])})"
     if k == "c_read":
         return f"(ConfRead {nat(op[1])} {zt(op[2])})"
+    if k == "c_store":
+        return f"(ConfStore {nat(op[1])} {zt(op[2])})"
     if k == "iter_new":
         return f"(IterNew {nat(op[1])})"
     if k == "iter_next":
@@ -442,6 +445,12 @@ class World:
                 h = self.handle(op[1], op[2], op[3])
                 c, q = np.asarray(h.coords), np.asarray(h.atomic_charges)
                 out = ("conf", [[tok(x) for x in r] for r in c.tolist()], [tok(x) for x in q.tolist()])
+            elif k == "c_store":
+                import msgpack
+                from molli.chem.io import _serialize_mol_v2, _deserialize_mol_v2
+                blob = msgpack.packb(_serialize_mol_v2(self.handle(op[1], op[2], op[3])), use_bin_type=True)
+                m = _deserialize_mol_v2(msgpack.unpackb(blob))
+                out = ("conf", [[tok(x) for x in r] for r in np.asarray(m.coords).tolist()], [tok(x) for x in np.asarray(m.atomic_charges).tolist()])
             elif k == "iter_new":
                 self.IT.append([iter(self.E[op[1]]), op[1], True, 0, False])
             elif k == "iter_next":
@@ -552,7 +561,7 @@ def judge(w, before, after, op, raised, out, iter_expect):
         if after != before:
             res.append((f"C14:failed-op-changed-state:{k}", f"{k} raised but an ensemble was modified"))
         i = op[1] if isinstance(op[1], int) else None
-        if k in ("c_read", "c_dump_xyz", "c_dump_mol2") and resolve_idx(op[2], before[op[1]]["nconf"]) is not None:
+        if k in ("c_read", "c_store", "c_dump_xyz", "c_dump_mol2") and resolve_idx(op[2], before[op[1]]["nconf"]) is not None:
             res.append((f"C14:view:{k}:raises", f"{k} on conformer {op[2]} of ensemble #{op[1]} ({before[op[1]]['nconf']} conformers) raised"))
         if k in ("dump_xyz", "dump_mol2", "nested", "loop_dump", "serialise", "iter_new", "iter_next"):
             res.append((f"C14:{k}:raises", f"{k} on ensemble/iterator #{op[1]} raised"))
@@ -563,7 +572,7 @@ def judge(w, before, after, op, raised, out, iter_expect):
     if len(after) != nb + grown:
         res.append((f"C14:frame:{k}", f"{k}: {len(after) - nb} ensembles appeared"))
     for i in range(nb):
-        if i != tgt or k in ("c_read", "nested", "loop_dump", "slice", "dump_xyz", "dump_mol2", "c_dump_xyz", "c_dump_mol2",
+        if i != tgt or k in ("c_read", "c_store", "nested", "loop_dump", "slice", "dump_xyz", "dump_mol2", "c_dump_xyz", "c_dump_mol2",
                              "serialise", "iter_new", "iter_next"):
             if after[i] != before[i]:
                 res.append((f"C14:frame:{k}", f"{k} (target {tgt}) changed ensemble #{i}"))
@@ -698,11 +707,11 @@ def judge(w, before, after, op, raised, out, iter_expect):
         got = out[1] if k == "dump_xyz" else [[(r, q) for r, q in blk] for blk in out[1]]
         if got != want:
             res.append((f"C14:dump:{k}", f"{k} of ensemble #{tgt}: the text does not hold every conformer's rows in order"))
-    if k in ("c_dump_xyz", "c_dump_mol2", "c_read"):
+    if k in ("c_dump_xyz", "c_dump_mol2", "c_read", "c_store"):
         b = before[tgt]
         r = resolve_idx(op[2], b["nconf"])
         if r is not None:
-            if k == "c_read":
+            if k in ("c_read", "c_store"):
                 ok = out == ("conf", b["c"][r], b["q"][r])
             elif k == "c_dump_xyz":
                 ok = out[1] == [b["c"][r]]
@@ -815,7 +824,7 @@ def gen_new(w, rng, snap):
 KINDS = (["new"] * 7 + ["serialise"] * 4 + ["append"] * 9 + ["extend"] * 6 + ["extend_ens"] * 4 + ["scale"] * 3 + ["invert"] * 2
          + ["translate1"] * 3 + ["translate2"] * 3 + ["rotate1"] * 3 + ["rotaten"] * 3 + ["set_coords"] * 3 + ["set_charges"] * 3
          + ["set_weights"] * 3 + ["c_set_coords"] * 6 + ["c_set_coord_elem"] * 5 + ["c_set_charges"] * 6 + ["c_set_charge_elem"] * 5
-         + ["c_scale"] * 2 + ["c_translate"] * 3 + ["c_transform"] * 2 + ["c_read"] * 6 + ["iter_new"] * 6 + ["iter_next"] * 16
+         + ["c_scale"] * 2 + ["c_translate"] * 3 + ["c_transform"] * 2 + ["c_read"] * 6 + ["c_store"] * 3 + ["iter_new"] * 6 + ["iter_next"] * 16
          + ["nested"] * 3 + ["loop_dump"] * 2 + ["slice"] * 5 + ["dump_xyz"] * 3 + ["dump_mol2"] * 3 + ["c_dump_xyz"] * 3 + ["c_dump_mol2"] * 3)
 
 
@@ -901,6 +910,8 @@ def gen_op(w, rng, snap):
                 if big * 6 >= BIG:
                     continue
                 return [k, i, kk, held, small_mat(rng)]
+            if k == "c_store" and big >= F4:
+                continue
             return [k, i, kk, held]
         if k == "iter_new":
             if sum(1 for r in w.IT if r[2]) >= 4:
@@ -1036,7 +1047,7 @@ def directed():
 # ------------------------------------------------------------------ entry points
 def run(ctx, rep):
     rep.rule = ("histories of calls on ConformerEnsemble / Conformer starting from nothing: 3 directed regression histories, then random "
-                "histories of 6..18 calls over the 31-letter alphabet of the module docstring (up to 4 ensembles of 0..3 atoms and 0..8 "
+                "histories of 6..20 calls over the 32-letter alphabet of the module docstring (up to 4 ensembles of 0..3 atoms and 0..8 "
                 "conformers, any number of interleaved iterators, conformer handles reused long after they were created); after every call: "
                 "raised?, return value, and every ensemble (n_atoms, coords, atomic_charges, weights) are recorded and replayed by the Coq "
                 "model; a history is non-trivial when at least one ensemble was resized or written and one value was read back through a "
@@ -1058,7 +1069,7 @@ def run(ctx, rep):
     rng = ctx.rng
     n_rand = 12000 if ctx.thorough else 900
     cases, meta, found = [], [], False
-    plans = [("directed", h) for h in directed()] + [("random", rng.randint(6, 18)) for _ in range(n_rand)]
+    plans = [("directed", h) for h in directed()] + [("random", rng.randint(6, 20)) for _ in range(n_rand)]
     for mode, payload in plans:
         if mode == "random":
             L = payload
@@ -1069,7 +1080,7 @@ def run(ctx, rep):
         cases.append(case)
         meta.append(done)
         wrote = any(e is None and k in RESIZE + CONF_WRITE + ENS_WRITE for k, e in stats)
-        read = any(e is None and k in ("c_read", "iter_next", "nested", "loop_dump", "slice", "dump_xyz", "dump_mol2", "c_dump_xyz",
+        read = any(e is None and k in ("c_read", "c_store", "iter_next", "nested", "loop_dump", "slice", "dump_xyz", "dump_mol2", "c_dump_xyz",
                                        "c_dump_mol2", "serialise") for k, e in stats)
         rep.case(key=json.dumps(done) if (wrote and read) else None, sample={"ops": [o[:3] for o in done[:5]]} if mode == "random" else None)
         for k, e in stats:
